@@ -8,7 +8,7 @@ import "strings"
 // model-level case.
 
 const (
-	trigFloatDivConstZero = "float division by a constant zero divisor"
+	trigFloatDivConstZero   = "float division by a constant zero divisor"
 	trigUntypedShiftOperand = "non-constant shift with an untyped constant left operand, used as operand of a binary expression"
 	trigIncDecUintptr       = "++/-- on a uintptr variable"
 	trigNegShiftCount       = "shift by a negative run-time count"
